@@ -116,14 +116,14 @@ def validate(pid, traces, tag, verdicts, shards=8):
                 if k == 0:
                     small = {kk: e[kk] for kk in e if kk != "q"}
                     small["q"] = []
-                    verdicts.add("cal/projection/" + e.get("kind", ""), "calendar %s: is_bus_day / is_settlement of the %s is not the union of its individually built parts" % (e.get("key"), e.get("kind")), {"event": small, "engine": "cal"})
+                    verdicts.add("cal/projection/" + e.get("kind", ""), "calendar %s: is_bus_day / is_settlement of the %s is not the union of its individually built parts" % (e.get("key"), e.get("kind")), {"event": small, "engine": "cal"}, src=p)
                     nviol += 1
                     continue
                 q = e["q"][k - 1]
                 key = "cal/" + QKEY[q["f"]](q) + ("/" + q["o"] if q.get("o") in ("panic",) else "")
                 case = {"event": {kk: e[kk] for kk in e if kk != "q"}, "query": q, "engine": "cal"}
                 case["event"]["q"] = [q]
-                verdicts.add(key, "calendar %s (%s): recorded answer %s rejected by Calendar.tla" % (e.get("key"), e.get("kind", e["op"]), json.dumps(q)), case)
+                verdicts.add(key, "calendar %s (%s): recorded answer %s rejected by Calendar.tla" % (e.get("key"), e.get("kind", e["op"]), json.dumps(q)), case, src=p)
                 nviol += 1
     return dict(events=events, oow=oow, nviol=nviol)
 
